@@ -162,10 +162,19 @@ def judge(rep, c, obs, g, literal: bool) -> None:
 
 def consts(rep, d) -> None:
     cvals = {"Cs": "abc", "Cq": "a b-c", "Ci": 7, "Cz": 0, "Cn": -3, "Cf": 1.5, "Ct": True, "Cfalse": False, "Ce": ""}
+    # name -> (schema, listed values): a bare const, a const next to its declared type, a union of consts (the way OpenAPI 3.1 spells an enumeration with
+    # per-value documentation)
+    fam = {k: ({"const": v}, [v]) for k, v in cvals.items()}
+    fam.update({"Tt": ({"type": "boolean", "const": True}, [True]), "Tfalse": ({"type": "boolean", "const": False}, [False]),
+                "Ts": ({"type": "string", "const": "abc"}, ["abc"]), "Ti": ({"type": "integer", "const": 7}, [7]), "Tf": ({"type": "number", "const": 1.5}, [1.5]),
+                "Us": ({"oneOf": [{"const": "abc"}, {"const": "abd"}]}, ["abc", "abd"]), "Ui": ({"anyOf": [{"const": 7}, {"const": 8}, {"const": 0}]}, [7, 8, 0]),
+                "Um": ({"oneOf": [{"const": "abc"}, {"const": 7}, {"const": ""}]}, ["abc", 7, ""]),
+                "Ud": ({"oneOf": [{"const": "abc", "description": "first"}, {"const": "7", "description": "second"}]}, ["abc", "7"])})
     schemas = {}
-    for k, v in cvals.items():
+    for k, (sch, _) in fam.items():
         for req in (True, False):
-            schemas[f"{k}{'R' if req else 'O'}"] = {"type": "object", "properties": {"e": {"const": v}}, **({"required": ["e"]} if req else {})}
+            schemas[f"{k}{'R' if req else 'O'}"] = {"type": "object", "properties": {"e": sch}, **({"required": ["e"]} if req else {})}
+    same = lambda x, v: x == v and type(x) is type(v)
     for literal in (False, True):
         pkg = f"const{int(literal)}"
         g = gen.generate(gen.mkdoc(schemas=schemas), d / pkg, literal_enums=literal)
@@ -174,33 +183,36 @@ def consts(rep, d) -> None:
             continue
         gen.ensure_repo_on_path()
         from openapi_python_client import utils
-        cases = [{"holder": str(utils.ClassName(n, "")), "enum": None, "values": [cvals[n[:-1]]],
-                  "probe": [x for x in ["abc", "abd", 7, 8, 0, 1, 1.5, 2.5, True, False, "", "7", "True", 7.0, 1] if not (x == cvals[n[:-1]] and type(x) is type(cvals[n[:-1]]))]}
+        cases = [{"holder": str(utils.ClassName(n, "")), "enum": None, "values": fam[n[:-1]][1],
+                  "probe": [x for x in ["abc", "abd", 7, 8, 0, 1, 1.5, 2.5, True, False, "", "7", "True", 7.0, 1] if not any(same(x, v) for v in fam[n[:-1]][1])]}
                  for n in schemas]
         out = run_enum_sandbox(d, pkg, cases)
         if "__crash__" in out:
             rep.violate("C14/const-sandbox-crash", out["__crash__"][-400:])
             continue
         for n, c in zip(schemas, cases):
-            v = cvals[n[:-1]]
+            listed = fam[n[:-1]][1]
+            shape = {"C": "", "T": "typed-", "U": "union-"}[n[0]]
             obs = out[c["holder"]]
             rep.count(1, ("const", n, literal))
             if obs.get("missing"):
-                rep.violate(f"C14/const-class-missing/{type(v).__name__}", f"const {v!r}: model not generated")
+                rep.violate(f"C14/const-class-missing/{shape}{type(listed[0]).__name__}", f"const {listed!r}: model not generated")
                 continue
-            r = obs["dec"].get(json.dumps(v))
-            if not r or not r["ok"] or r["enc"] != v:
-                rep.violate(f"C14/const-rejects-itself/{type(v).__name__}/{'required' if n.endswith('R') else 'optional'}", f"const {v!r} does not accept its own value: {r}", const=v)
+            for v in listed:
+                r = obs["dec"].get(json.dumps(v))
+                if not r or not r["ok"] or r["enc"] != v:
+                    rep.violate(f"C14/const-rejects-itself/{shape}{type(v).__name__}/{'required' if n.endswith('R') else 'optional'}",
+                                f"const {listed!r} ({json.dumps(fam[n[:-1]][0])}) does not accept its own value {v!r}: {r}", const=v)
             for pv in c["probe"]:
                 pr = obs["dec"].get(json.dumps(pv))
                 if pr and pr["ok"]:
-                    if isinstance(pv, (int, float)) and isinstance(v, (int, float)) and not isinstance(pv, bool) and not isinstance(v, bool) and pv == v:
+                    if any(isinstance(pv, (int, float)) and isinstance(v, (int, float)) and not isinstance(pv, bool) and not isinstance(v, bool) and pv == v for v in listed):
                         continue        # 7.0 for const 7: equal numbers are the same JSON value
-                    confusion = (pv == v)               # 1 == True, 0 == False in Python
-                    key = f"C14/const-accepts-other/{type(v).__name__}/{'bool-number-confusion' if confusion else 'different'}"
-                    rep.violate(key, f"const {v!r} accepts {pv!r}", const=v, value=pv)
+                    confusion = any(pv == v for v in listed)               # 1 == True, 0 == False in Python
+                    key = f"C14/const-accepts-other/{shape}{type(listed[0]).__name__}/{'bool-number-confusion' if confusion else 'different'}"
+                    rep.violate(key, f"const {listed!r} ({json.dumps(fam[n[:-1]][0])}) accepts {pv!r}", const=listed, value=pv)
             if n.endswith("O") and obs["absent"] != "Unset":
-                rep.violate(f"C14/const-optional-absent/{type(v).__name__}", f"optional const {v!r}: absent reads back as {obs['absent']}", const=v)
+                rep.violate(f"C14/const-optional-absent/{shape}{type(listed[0]).__name__}", f"optional const {listed!r}: absent reads back as {obs['absent']}", const=listed)
 
 
 def class_collisions(rep, d) -> None:
